@@ -9,7 +9,14 @@
 #include "common/fharness.h"
 
 static a_complex Z(int i) { a_complex z; z.real = (a_real)f_arg[i]; z.imag = (a_real)f_arg[i + 1]; return z; }
-static void putc2(a_complex z) { put((double)z.real); put((double)z.imag); }
+/* a_real results: one binary64 value; with A_SIZE_REAL=16 (long double) the value travels as the pair hi, lo of doubles
+   with x = hi + lo exactly up to 106 bits, so that the accuracy oracle sees all 64 mantissa bits */
+#if defined(A_SIZE_REAL) && (A_SIZE_REAL + 0 == 16)
+static void putr(a_real x) { double hi = (double)x; put(hi); put(hi - hi == 0 ? (double)(x - (a_real)hi) : 0.0); }
+#else
+static void putr(a_real x) { put((double)x); }
+#endif
+static void putc2(a_complex z) { putr(z.real); putr(z.imag); }
 
 #define C1(NAME) \
     if (!strcmp(f_fn, #NAME)) { a_complex c; c.real = 777; c.imag = 777; a_complex_##NAME(&c, Z(0)); putc2(c); ok = 1; } \
@@ -23,7 +30,7 @@ static void putc2(a_complex z) { put((double)z.real); put((double)z.imag); }
 #define RC(NAME) \
     if (!strcmp(f_fn, #NAME)) { a_complex c; c.real = 777; c.imag = 777; a_complex_##NAME(&c, (a_real)f_arg[0]); putc2(c); ok = 1; }
 #define R1(NAME) \
-    if (!strcmp(f_fn, #NAME)) { put((double)a_complex_##NAME(Z(0))); ok = 1; }
+    if (!strcmp(f_fn, #NAME)) { putr(a_complex_##NAME(Z(0))); ok = 1; }
 
 int main(void)
 {
